@@ -59,7 +59,9 @@ Refill(n) ==
   /\ UNCHANGED <<hasSrc, wrapped, sink, drops>>
   /\ last' = L("ok", 0)
 
-(* a new callback target; the old one (and the items it collected) is dropped *)
+(* a new callback target; the old one (and the items it collected) is dropped.  The OpaqueCallback over a closure target  *)
+(* is made here, once, and the same callback object is lent to every feed that takes it by reference: `calls` is the     *)
+(* closure's own count across feeds - a callback that asked one feed to stop IS invoked again by the next (Offered)      *)
 NewSink(kind, stop) ==
   /\ kind \in {"closure", "vec", "extend"}
   /\ (kind # "closure" => stop = 0)
